@@ -507,6 +507,79 @@ func genWire(repo string) (string, error) {
 		fmt.Fprintf(&b, "Definition gen_write_buf : buf_policy := %s.\n", pol)
 		fmt.Fprintf(&b, "Definition gen_request_buffer_presets : list string := %s.\n\n", coqStrListW(presets))
 	}
+	// How the package configures its websockets: calls of SetReadLimit /
+	// SetCompressionLevel / EnableWriteCompression, and the ReadBufferSize /
+	// WriteBufferSize / EnableCompression keys of Upgrader and Dialer literals,
+	// with their (constant) values.  A read limit makes a legal frame above it
+	// undecodable, whatever the codec does.
+	{
+		var items []string
+		for _, fn := range p.sortedFiles() {
+			if strings.HasSuffix(fn, "_test.go") || strings.HasPrefix(filepath.Base(fn), "verif_") {
+				continue
+			}
+			ast.Inspect(p.files[fn], func(nd ast.Node) bool {
+				val := func(e ast.Expr) string {
+					if v := evalConst(e, consts, 0); v != nil {
+						return v.ExactString()
+					}
+					return p.src(e)
+				}
+				switch x := nd.(type) {
+				case *ast.CallExpr:
+					if sel, ok := x.Fun.(*ast.SelectorExpr); ok {
+						switch sel.Sel.Name {
+						case "SetReadLimit", "SetCompressionLevel", "EnableWriteCompression":
+							arg := ""
+							if len(x.Args) > 0 {
+								arg = val(x.Args[0])
+							}
+							items = append(items, fmt.Sprintf("(%s, %s)", coqStr(sel.Sel.Name), coqStr(arg)))
+						}
+					}
+				case *ast.KeyValueExpr:
+					if id, ok := x.Key.(*ast.Ident); ok {
+						switch id.Name {
+						case "ReadBufferSize", "WriteBufferSize", "EnableCompression":
+							items = append(items, fmt.Sprintf("(%s, %s)", coqStr(id.Name), coqStr(val(x.Value))))
+						}
+					}
+				}
+				return true
+			})
+		}
+		sort.Strings(items)
+		fmt.Fprintf(&b, "Definition gen_ws_config : list (string * string) :=\n  %s.\n\n", coqList(items))
+
+		// every integer the package names (literals and constants, 256 and above)
+		seen := map[int64]bool{}
+		var lits []string
+		addLit := func(v constant.Value) {
+			if v == nil || v.Kind() != constant.Int {
+				return
+			}
+			if x, ok := constant.Int64Val(v); ok && x >= 256 && !seen[x] {
+				seen[x] = true
+				lits = append(lits, fmt.Sprintf("%d%%N", x))
+			}
+		}
+		for _, v := range consts {
+			addLit(v)
+		}
+		for _, fn := range p.sortedFiles() {
+			if strings.HasSuffix(fn, "_test.go") || strings.HasPrefix(filepath.Base(fn), "verif_") {
+				continue
+			}
+			ast.Inspect(p.files[fn], func(nd ast.Node) bool {
+				if bl, ok := nd.(*ast.BasicLit); ok && bl.Kind == token.INT {
+					addLit(constant.MakeFromLiteral(bl.Value, token.INT, 0))
+				}
+				return true
+			})
+		}
+		sort.Strings(lits)
+		fmt.Fprintf(&b, "Definition gen_sni_int_literals : list N := [%s].\n\n", strings.Join(lits, "; "))
+	}
 	fmt.Fprintf(&b, "Definition gen_alloc_max : N := %s.\n", coqN(consts["decodeAllocMax"]))
 	fmt.Fprintf(&b, "Definition gen_max_read_size : N := %s.\n", coqN(consts["maxReadSize"]))
 	return b.String(), nil
